@@ -312,4 +312,86 @@ theorem readArray_complete (parse : Bytes → Option Hdr) (v2 : Bool) (header bo
   · left; exact ⟨rfl, rfl⟩
   · right; exact ⟨rfl, rfl⟩
 
+/-! ### short reads never yield wrong data -/
+
+theorem readBytes_field (x rest : Bytes) (sched : List Nat) (acc : Bytes) (fuel : Nat)
+    (hf : x.length ≤ fuel) :
+    ∃ sch, readBytes fuel ⟨x ++ rest, sched⟩ x.length acc = .ok (acc ++ x, ⟨rest, sch⟩) := by
+  obtain ⟨sch, hs⟩ := readBytes_ok fuel ⟨x ++ rest, sched⟩ x.length acc hf
+    (by simp only [List.length_append]; omega)
+  refine ⟨sch, ?_⟩
+  rw [hs]
+  simp only
+  rw [List.take_left' rfl, List.drop_left' rfl]
+
+theorem readArray_sound_aux (parse : Bytes → Option Hdr) (ver : Bytes) (L : Nat)
+    (hver : (ver = [1, 0] ∧ L = 2) ∨ (ver = [2, 0] ∧ L = 4))
+    (header body extra : Bytes) (h : Hdr) (hp : parse header = some h)
+    (hbody : body.length = h.nbytes) (hlen : header.length < 256 ^ L) (sched : List Nat)
+    (r : Hdr × Bytes)
+    (hr : readArray parse
+      ⟨(magicPrefix ++ ver) ++ (natToLE L header.length ++ (header ++ (body ++ extra))), sched⟩
+        = .ok r) : r = (h, body) := by
+  have hM : (magicPrefix ++ ver).length = 8 := by
+    rcases hver with ⟨hv, _⟩ | ⟨hv, _⟩ <;> rw [hv] <;> rfl
+  have hL : (natToLE L header.length).length = L := natToLE_length _ _
+  have hLpos : L ≠ 0 := by rcases hver with ⟨_, hv⟩ | ⟨_, hv⟩ <;> omega
+  have hmagic : (magicPrefix ++ ver).take 6 = magicPrefix := by
+    rcases hver with ⟨hv, _⟩ | ⟨hv, _⟩ <;> rw [hv] <;> rfl
+  have hdrop : (magicPrefix ++ ver).drop 6 = ver := by
+    rcases hver with ⟨hv, _⟩ | ⟨hv, _⟩ <;> rw [hv] <;> rfl
+  have hlenB : (if ver = [1, 0] then 2 else if ver = [2, 0] then 4 else 0) = L := by
+    rcases hver with ⟨hv, hl⟩ | ⟨hv, hl⟩ <;> rw [hv, hl] <;> decide
+  unfold readArray at hr
+  obtain ⟨sch1, hs1⟩ := readBytes_field (magicPrefix ++ ver)
+    (natToLE L header.length ++ (header ++ (body ++ extra))) sched [] 8 (by rw [hM]; omega)
+  rw [hM] at hs1
+  rw [hs1] at hr
+  simp only [List.nil_append, hmagic, hdrop, hlenB, ne_eq, not_true_eq_false, if_false, hLpos] at hr
+  obtain ⟨sch2, hs2⟩ := readBytes_field (natToLE L header.length) (header ++ (body ++ extra)) sch1 [] L
+    (by rw [hL]; omega)
+  rw [hL] at hs2
+  rw [hs2] at hr
+  simp only [List.nil_append, leNat_natToLE L header.length hlen] at hr
+  obtain ⟨sch3, hs3⟩ := readBytes_field header (body ++ extra) sch2 [] header.length (Nat.le_refl _)
+  rw [hs3] at hr
+  simp only [List.nil_append, hp] at hr
+  by_cases hobj : h.hasObject = true
+  · simp [hobj] at hr
+  · simp only [hobj, Bool.false_eq_true, if_false] at hr
+    unfold readInto at hr
+    rw [Stream.read_eq] at hr
+    simp only at hr
+    generalize hw : (⟨body ++ extra, sch3⟩ : Stream).want h.nbytes = w at hr
+    have hwle : w ≤ h.nbytes := by rw [← hw]; exact Stream.want_le _ _
+    by_cases hlen' : ((body ++ extra).take w).length = h.nbytes
+    · rw [if_pos hlen'] at hr
+      simp only [Except.ok.injEq] at hr
+      rw [← hr]
+      have hweq : w = body.length := by
+        rw [List.length_take] at hlen'
+        omega
+      rw [hweq, List.take_left' rfl]
+    · rw [if_neg hlen'] at hr
+      cases hr
+
+/-- **short reads never yield wrong data**: whatever the short-read schedule, if `read_array`
+    returns at all on a valid blob (possibly followed by more bytes) it returns exactly the
+    blob's header facts and body -/
+theorem readArray_sound (parse : Bytes → Option Hdr) (v2 : Bool) (header body extra : Bytes)
+    (h : Hdr) (hp : parse header = some h) (hbody : body.length = h.nbytes)
+    (hlen : header.length < 256 ^ (if v2 then 4 else 2)) (sched : List Nat) (r : Hdr × Bytes)
+    (hr : readArray parse ⟨encodeNpy v2 header body ++ extra, sched⟩ = .ok r) : r = (h, body) := by
+  rw [encodeNpy_eq] at hr
+  have e0 : ((magicPrefix ++ (if v2 then [2, 0] else [1, 0])) ++
+      (natToLE (if v2 then 4 else 2) header.length ++ (header ++ body))) ++ extra
+      = (magicPrefix ++ (if v2 then [2, 0] else [1, 0])) ++
+        (natToLE (if v2 then 4 else 2) header.length ++ (header ++ (body ++ extra))) := by
+    simp [List.append_assoc]
+  rw [e0] at hr
+  apply readArray_sound_aux parse _ _ _ header body extra h hp hbody hlen sched r hr
+  cases v2
+  · left; exact ⟨rfl, rfl⟩
+  · right; exact ⟨rfl, rfl⟩
+
 end ChunkStore
